@@ -3,6 +3,7 @@ import ColoVerif.Proofs.DetPlaceInit
 import ColoVerif.Proofs.DetPlaceInitOk
 import ColoVerif.Proofs.DetPlaceLegal
 import ColoVerif.Proofs.DetPlaceCan
+import ColoVerif.Proofs.DetPlaceAfterLegalize
 import ColoVerif.Model.LegacyLegalize
 import ColoVerif.Model.LegacyDetPlace
 /-!
@@ -18,7 +19,7 @@ by the primitives stream and the history replay of `harness/h_C02.cpp`.
 
 Theorems: `inv_init` (constructor ⇒ `Inv`, all placed), `fromCircuit_ok_of_legal` (constructor does not
 fail on a legal circuit), `inv_step*` / `inv_run` (every move keeps `Inv`), `swap_never_throws` /
-`insert_never_throws` (feasible moves are carried out), `ignored_frame`, `inv_legal` (every state
+`insert_never_throws` (feasible moves are carried out), `ignored_frame`, `links_wf`, `inv_legal` (every state
 reached from a legal circuit exports a legal circuit, C01's `Legal`).  `Legalize.DomL` / `LegalL` are
 the verbatim copies of `C01.Dom` / `C01.Legal` (tied by `rfl` in Properties/C01.lean).
 Helper lemmas: Proofs/DetPlace{Inv,Frame,Init,Rows,InitOk,Legal,Can}.lean.
@@ -64,13 +65,17 @@ theorem init_of_legal (c : Circuit) (hd : Legalize.DomL c) (hl : Legalize.LegalL
   obtain ⟨h1, h2, _⟩ := inv_init c s (fun cl hcl hf => ⟨(hd.2.1 cl hcl (by simpa using hf)).1, hv cl hcl hf⟩) e
   exact ⟨s, e, h1, h2⟩
 
-/-- … hence after a successful legalization (`legalizeWith` of C01's model, any rounding of the
-ordering key) whose result is again in the domain and has row-conform orientations, the constructor
-of detailed placement does not fail. -/
-theorem fromCircuit_ok_after_legalize (rnd : Rat → Rat) (p : Legalize.Params) (c c' : Circuit) (hd : Legalize.DomL c)
-    (h : Legalize.legalizeWith rnd p c = .ok c') (hd' : Legalize.DomL c') (ho : OrientLegal c') :
-    ∃ s, fromIspdCircuit c' = .ok s :=
-  fromIspdCircuit_ok c' hd' (Legalize.legalizeWith_legal rnd p c c' hd h) ho
+/-- **After a successful legalization the constructor never fails (full, no side condition).**  For
+every circuit of C01's domain, every rounding of the ordering key and all parameters: if legalization
+(`legalizeWith`, the function C01's theorems are about) returns `c'`, then `c'` is again in the domain,
+legal (`C01.legalize_legal`), row-conform in its orientations and free of INVALID orientations (C04's
+`legalizeWith_orient`), hence `DetailedPlacement::fromIspdCircuit c'` returns normally, with a state
+that satisfies `Inv` and has every optimised cell placed. -/
+theorem constructor_ok_after_legalize (rnd : Rat → Rat) (p : Legalize.Params) (c c' : Circuit) (hd : Legalize.DomL c)
+    (h : Legalize.legalizeWith rnd p c = .ok c') :
+    ∃ s, fromIspdCircuit c' = .ok s ∧ Inv s ∧ s.allPlaced = true :=
+  init_of_legal c' (legalize_dom rnd p c c' hd h) (Legalize.legalizeWith_legal rnd p c c' hd h)
+    (legalize_orientLegal rnd p c c' hd h) (legalize_noInvalid rnd p c c' hd h)
 
 /-- `unplace` of a placed cell keeps the invariant (pointer surgery included) -/
 theorem inv_unplace {s : State} (h : Inv s) {c : Int} (hc : s.validCell c) (hp : s.row c ≠ -1) :
@@ -109,6 +114,16 @@ theorem ignored_frame {s t : State} {ops : List Op} (e : s.run ops = .ok t) :
     t.width = s.width ∧ ∀ d, s.isIgnored d = true → t.x d = s.x d ∧ t.y d = s.y d ∧ t.orient d = s.orient d := by
   have := run_frame e
   exact ⟨this.1, fun d hd => this.2 d (by simpa [isIgnored] using hd)⟩
+
+/-- **The linked representation is the list-of-lists view, after every move.**  In every state reached
+by any history from a state satisfying `Inv`, for every row: `rowCells r` (the cells met by following
+`cellNext_` from `rowFirstCell_[r]`, as `DetailedPlacement::rowCells` does) are exactly the valid cells
+whose `cellRow_` is `r`, in increasing x without overlap.  So the pointer surgery of `place`/`unplace`
+never loses, duplicates or misorders a cell. -/
+theorem links_wf {s t : State} (h : Inv s) {ops : List Op} (e : s.run ops = .ok t) {r : Int} (hr : t.validRow r) :
+    (∀ c, c ∈ t.rowCells r ↔ (t.validCell c ∧ t.row c = r)) ∧
+    (t.rowCells r).Pairwise (fun a b => t.x a + t.width a ≤ t.x b) :=
+  rowCells_spec (run_inv h e) hr
 
 /-- Legality read off the invariant, cell by cell: a placed cell is an optimised cell of positive
 width, sits at its row's y in an allowed row with a valid orientation, does not overlap its
@@ -168,6 +183,22 @@ theorem inv_legal (c : Circuit) (hd : Legalize.DomL c) (hl : Legalize.LegalL c)
   simp only [Option.map_some, Option.some.injEq]
   unfold newCell
   rw [a1, a2, a3, if_neg (by simp [hf])]
+
+/-- **C02, end to end on the model.**  For every circuit of C01's domain on which legalization returns
+`c'`: the constructor of detailed placement succeeds on `c'`, and every state reached from its state by
+any accepted history of the optimiser's moves satisfies `Inv`, has every optimised cell placed and
+exports a circuit that is legal in C01's sense, with the unoptimised movable cells exactly where
+legalization put them. -/
+theorem detailed_legal_after_legalize (rnd : Rat → Rat) (p : Legalize.Params) (c c' : Circuit) (hd : Legalize.DomL c)
+    (h : Legalize.legalizeWith rnd p c = .ok c') :
+    ∃ s0, fromIspdCircuit c' = .ok s0 ∧
+      ∀ (ops : List Op) (s : State), s0.run ops = .ok s →
+        Inv s ∧ s.allPlaced = true ∧ Legalize.LegalL (exportPlacement s c') ∧
+        (∀ (i : Nat) (cl : Cell), c'.cells[i]? = some cl → cl.fixed = false →
+          cl.placedHeight ≠ (Circuit.rowHeight c').getD 0 → (exportPlacement s c').cells[i]? = some cl) := by
+  obtain ⟨s0, e0, _, _⟩ := constructor_ok_after_legalize rnd p c c' hd h
+  exact ⟨s0, e0, fun ops s e => inv_legal c' (legalize_dom rnd p c c' hd h) (Legalize.legalizeWith_legal rnd p c c' hd h)
+    (legalize_noInvalid rnd p c c' hd h) s0 s e0 ops e⟩
 
 /-- the arithmetic fact behind `positionOnInsert` / `positionsOnSwap`: the C++ midpoint
 (truncating division) of a site that is wide enough lies inside the site -/
@@ -233,7 +264,7 @@ example : (match fromIspdCircuit tiny with
 /-! non-vacuity of `inv_legal`: its hypotheses hold for the legalized `tiny` (legality by
 `legalizeWith_legal`, see below) and the history `tinyOps` is accepted from the constructor's state of `tiny` -/
 
-/-! non-vacuity of `fromCircuit_ok_of_legal` / `fromCircuit_ok_after_legalize`: legalization of `tiny`
+/-! non-vacuity of `fromCircuit_ok_of_legal` / `constructor_ok_after_legalize` / `detailed_legal_after_legalize`: legalization of `tiny`
 (one two-row cell, three one-row cells, one of them with polarity SAME) succeeds; its result is in
 the domain, legal (`legalizeWith_legal`), orientation-conform, and the constructor accepts it -/
 instance (c : Circuit) : Decidable (Legalize.DomL c) := inferInstanceAs (Decidable (_ ∧ _ ∧ _ ∧ _))
